@@ -17,7 +17,7 @@ IMPLICIT_KINDS = ('overflow', 'index-bounds', 'div-by-zero', 'termination')
 def units_for(prop):
     out = []
     for p in sorted(glob.glob(os.path.join(VERIF, 'units', '*.rs'))):
-        t = open(p).read()
+        t = G.expand(p)
         if re.search(r'props=[A-Z0-9,]*\b%s\b' % prop, t) or re.search(r'//\s*id:[^\n]*\[[^\]]*\b%s\b[^\]]*\]' % prop, t) \
                 or re.search(r'//\s*vp:lemma-props[^\n]*\b%s\b' % prop, t):
             out.append(os.path.basename(p)[:-3])
@@ -54,7 +54,7 @@ def tagged_clauses(unit, prop):
 
 def lemma_obligations(unit, prop):
     """template-level proof fns declared as supporting the property:  `// vp:lemma-props name C01,C02`"""
-    t = open(os.path.join(VERIF, 'units', unit + '.rs')).read()
+    t = G.expand(os.path.join(VERIF, 'units', unit + '.rs'))
     out = []
     for m in re.finditer(r'//\s*vp:lemma-props\s+([A-Za-z0-9_:]+)\s+([A-Z0-9,]+)', t):
         if prop in m.group(2).split(','):
